@@ -169,9 +169,11 @@ FinalBad(exp, lockm, st, cells) ==
 ----------------------------------------------------------------------------
 (* npy stack: to_npy_stack(dirname, x, axis) followed by from_npy_stack(dirname) gives the array
    back, cut along `axis` exactly like x was (the chunking of the other axes is not promised).
-   o = [shape, chunks, cells] is the array read back, cells = ids 1..Size in row-major order. *)
+   o = [shape, chunks, lchunks, cells] is the array read back: computed shape, extents of the computed
+   blocks, declared chunks, cells = ids 1..Size in row-major order. *)
 NpyRoundTripBad(shape, chunks, axis, o) ==
   Cl("Shape", o.shape = shape)
+  \cup Cl("LazyChunks", o.lchunks = o.chunks)
   \cup Cl("Content", o.cells = [j \in 1..Size(shape) |-> j])
   \cup Cl("AxisChunks", Len(o.chunks) = Len(shape) /\ o.chunks[axis] = chunks[axis])
   \cup Cl("ValidChunks", ValidChunks(shape, o.chunks))
